@@ -112,11 +112,19 @@ def nontrivial(case):
     return len(ks) > 1 or ks[0] in ("H", "C", "T", "R", "B", "U") or case["pipe"][0]["close"]
 
 
-def trace_cfg(ck, allowed):
-    p = os.path.join(ck.work, "trace_%s.cfg" % ("dev" if allowed else "strict"))
-    vf.write_cfg(p, constants={"DevAllowed": "{" + ", ".join('"%s"' % a for a in allowed) + "}"}, invariants=["TraceChk"],
-                 postcondition="TracePost")
+def trace_cfg(ck, allowed, evalpass=False):
+    p = os.path.join(ck.work, "trace_%s.cfg" % ("eval" if evalpass else "dev" if allowed else "strict"))
+    vf.write_cfg(p, constants={"DevAllowed": "{" + ", ".join('"%s"' % a for a in allowed) + "}", "Eval": evalpass},
+                 invariants=["TraceChk"], postcondition="TracePost")
     return p
+
+
+def write_execs(path, execs, idxs):
+    with open(path, "w") as f:
+        for i in idxs:
+            for e in execs[i][1]:
+                f.write(json.dumps(e, separators=(",", ":")) + "\n")
+            f.write('{"e":"Reset"}\n')
 
 
 def run_driver(ck, lines, name):
@@ -164,30 +172,45 @@ def judge(ck, cases, lines, out_path, name, retry=True):
     for c in cases:
         if nontrivial(c):
             ck.nontrivial_keys.add(json.dumps(c, sort_keys=True))
-    allowed = [a for a in DEV_ACTIONS]
-    cfg = trace_cfg(ck, allowed)
+    import re
+    trace_tla = os.path.join(SPECDIR, "HttpPipelineTrace.tla")
+    cfg_eval, cfg = trace_cfg(ck, [], True), trace_cfg(ck, DEV_ACTIONS)
     nchunks = max(1, min(8, len(cases) // 300 + 1))
     chunks = [list(range(len(cases)))[k::nchunks] for k in range(nchunks)]
 
+    # ---- pass 1 (Eval): which executions does the property itself explain?  deterministic, never blocks
+    def eval_chunk(k):
+        p = os.path.join(ck.work, "%s.eval%d.ndjson" % (name, k))
+        write_execs(p, execs, chunks[k])
+        v = vf.validate_trace(trace_tla, cfg_eval, p, tag="C16_eval_%s_%d" % (name, k))
+        if v.error or not v.accepted:
+            raise vf.Infra("evaluation pass did not consume the trace: %s" % (v.error or v.out[-800:]))
+        return {chunks[k][int(m.group(1))] for m in re.finditer(r'<<"NOTABS", (\d+)>>', v.out)}
+    with cf.ThreadPoolExecutor(max_workers=8) as ex:
+        notabs = sorted(set().union(*ex.map(eval_chunk, range(nchunks))))
+    ck.traces += len(cases) - len(notabs)
+
+    # ---- pass 2: the others must be explained with the deviation actions of the known findings
+    n2 = max(1, min(8, len(notabs) // 200 + 1))
+    chunks2 = [notabs[k::n2] for k in range(n2)]
+
     def validate_chunk(k):
-        idxs = list(chunks[k])
+        idxs = list(chunks2[k])
         rejected, devs = [], {}
         for _ in range(40):
             if not idxs:
                 break
             p = os.path.join(ck.work, "%s.val%d.ndjson" % (name, k))
-            with open(p, "w") as f:
-                for i in idxs:
-                    for e in execs[i][1]:
-                        f.write(json.dumps(e, separators=(",", ":")) + "\n")
-                    f.write('{"e":"Reset"}\n')
-            v = vf.validate_trace(os.path.join(SPECDIR, "HttpPipelineTrace.tla"), cfg, p, tag="C16_val_%s_%d" % (name, k))
+            write_execs(p, execs, idxs)
+            v = vf.validate_trace(trace_tla, cfg, p, tag="C16_val_%s_%d" % (name, k))
             if v.error:
                 raise vf.Infra("trace validation error: " + v.error)
             if v.accepted:
-                import re
                 for m in re.finditer(r'<<"DEVS", (\d+), \{([^}]*)\}>>', v.out):
                     devs.setdefault(idxs[int(m.group(1))], set()).update(x.strip().strip('"') for x in m.group(2).split(","))
+                missing = [i for i in idxs if i not in devs]
+                if missing:
+                    raise vf.Infra("execution %d accepted in pass 2 without a recorded deviation" % missing[0])
                 return idxs, rejected, devs
             line, x = 0, None
             for pos, i in enumerate(idxs):
@@ -200,17 +223,21 @@ def judge(ck, cases, lines, out_path, name, retry=True):
                 raise vf.Infra("cannot locate rejected line %d" % v.maxl)
             rejected.append(idxs[x])
             idxs = idxs[:x] + idxs[x + 1:]
-        return idxs, rejected, devs
+        # too many rejections in this chunk: what is left was not decided
+        ck.undecided = getattr(ck, "undecided", 0) + len(idxs)
+        return [], rejected, {}
 
     with cf.ThreadPoolExecutor(max_workers=8) as ex:
-        results = list(ex.map(validate_chunk, range(nchunks)))
+        results = list(ex.map(validate_chunk, range(n2))) if notabs else []
     rejected, devs = [], {}
     for idxs, rej, dv in results:
         ck.traces += len(idxs)
         rejected += rej
-        devs.update(dv)
-    ck.note("%s: %d executions, %d accepted (%d of them only with a deviation action), %d rejected" % (
-        name, len(cases), sum(len(r[0]) for r in results), len(devs), len(rejected)))
+        devs.update({i: dv[i] for i in idxs})
+    if getattr(ck, "undecided", 0):
+        ck.note("%d executions left undecided after 40 rejections per chunk" % ck.undecided)
+    ck.note("%s: %d executions: %d explained by the property, %d only with a deviation action, %d rejected" % (
+        name, len(cases), len(cases) - len(notabs), len(devs), len(rejected)))
     # ---- deviations -> known findings (by signature) or violations
     by_action = {}
     for i, acts in devs.items():
@@ -263,6 +290,7 @@ def self_test_trace(ck, cases, out_path):
     by the strict configuration"""
     execs = vf.split_executions(vf.read_ndjson(out_path))
     cfg_dev, cfg_strict = trace_cfg(ck, DEV_ACTIONS), trace_cfg(ck, [])
+    cfg_eval = trace_cfg(ck, [], True)
 
     def val(evs, cfg, tag):
         p = os.path.join(ck.work, "selftest_%s.ndjson" % tag)
@@ -273,6 +301,8 @@ def self_test_trace(ck, cases, out_path):
         v = vf.validate_trace(os.path.join(SPECDIR, "HttpPipelineTrace.tla"), cfg, p, tag="C16_selftest_" + tag)
         if v.error:
             raise vf.Infra("self-test validation error: " + v.error)
+        if cfg == cfg_eval:
+            return v.accepted and "NOTABS" not in v.out
         return v.accepted
     done = set()
     for i, (start, evs) in enumerate(execs):
@@ -300,8 +330,10 @@ def self_test_trace(ck, cases, out_path):
             rel = [e for e in e2 if e["e"] == "Release"]
             rs = sorted([e for e in e2 if e["e"] == "Resp"], key=lambda e: -e["for"])
             e2 = [e2[0]] + rel + rs + [e2[-1]]
-            if val(e2, cfg_strict, "order"):
+            if val(e2, cfg_strict, "order") or val(e2, cfg_eval, "order_eval"):
                 raise vf.Infra("self-test: the strict HttpPipelineTrace accepted responses in reverse order")
+            if not val(evs, cfg_eval, "plain_eval") and [e["for"] for e in evs if e["e"] == "Resp"] == [1, 2]:
+                raise vf.Infra("self-test: the evaluation pass flagged an in-order execution")
             if not val(e2, cfg_dev, "order_dev"):
                 raise vf.Infra("self-test: HttpPipelineTrace with DevRespOutOfOrder rejected a reversed but well-formed trace")
             done.add("order")
